@@ -69,7 +69,7 @@ StepOf(e) == CASE e.ev = "WRecvBootstrap" -> WRecvBootstrap(e.arg)
                [] e.ev = "Skip" -> UNCHANGED view       \* a message the model does not describe (mechanic): changes nothing modelled
                [] OTHER -> FALSE
 
-L1Clauses == {"Barrier", "AtMostOnce", "ExactlyOnceAtEnd", "CompleteOnce", "CompletedByNamed", "NoCrossElementCut",
+L1Clauses == {"Barrier", "AtMostOnce", "ExactlyOnceAtEnd", "CompleteOnce", "CompletedByNamed", "CompletedByEnds", "NoCrossElementCut",
               "NoStall", "NoHang", "SampleConservation", "AllSamplesAtRaceControl", "OnlyFullQueueDrops", "FinalRecords",
               "FaultNeverSuccess", "NoResultsOnFailure", "CancelNoResults", "FaultReported"}
 
@@ -96,6 +96,7 @@ Holds(c, e) ==
       [] c = "ExactlyOnceAtEnd" -> ExactlyOnceAtEnd'
       [] c = "CompleteOnce" -> CompleteOnce'
       [] c = "CompletedByNamed" -> CompletedByNamed'
+      [] c = "CompletedByEnds" -> CompletedByEnds'
       [] c = "NoCrossElementCut" -> NoCrossElementCut'
       [] c = "NoStall" -> NoStall'
       [] c = "NoHang" -> e.ev # "Hang"
